@@ -6,15 +6,18 @@ adversarial families F(n) (lib/gen_adv.py), n swept, with and without --enable-p
 sizes, constant-folding sizes and Python function activations per analysis package.  The oracle is on those
 counters only:
 
-  envelope   every deciding counter stays below a committed polynomial envelope a*(n+1)^d, d <= 4, calibrated on
-             the unchanged tree with >= 10x head-room (ENVELOPES below; never computed from the tree under test)
+  envelope   every deciding counter stays below a committed polynomial envelope a*(n+1)^d, d <= 4, calibrated with
+             >= 10x head-room (ENVELOPES at the end of this file; never computed from the tree under test); the
+             comparison is made synchronously inside the child, which is stopped by the first counter that crosses
   growth     no counter shows three consecutive growth ratios w(n+1)/w(n) >= 1.8 at n >= 8 (a polynomial of
              degree <= 4 has ratio <= (9/8)^4 = 1.6 there and falling; exponential growth keeps its base)
   constants  no constant folding produces (or is still computing when the child is stopped, or dies of
              MemoryError computing) a value of more than 10^6 bits ("unbounded constant folding"); the size is
              predicted from the operand sizes before the evaluation so that the witness exists even if the child
              never comes back
-  crash      the run is not killed by a signal and does not die of RecursionError / MemoryError
+  crash      the run is not killed by a signal and does not die of resource exhaustion (RecursionError,
+             MemoryError, OverflowError, the int->str digit limit); other exception types are functional defects
+             (C03's business): recorded, not judged here
   watchdog   a child that has used up its CPU-time watchdog while its counters (dumped every second) are still
              growing is a non-terminating analysis; a watchdog without counter evidence is inconclusive
 
@@ -48,7 +51,21 @@ FLOOR_ALWAYS = ("gir_stmts", "calls_lang", "calls_basics", "calls_core", "p3_fra
 FLOOR_P2 = ("p2_frames", "p2_methods", "stmt_transfers_p2")
 FLOOR_TAINT = ("taint_pops", "taint_propagations", "calls_taint")
 
+# Mechanism signatures name the GROUP of the counter (correlated counters cross their envelopes together and which of
+# them is first differs with n); the description names the exact counter.
+GROUPS = {
+    "frontend": ("gir_stmts", "calls_lang", "prep_files"),
+    "frames": ("p3_frames", "p2_frames", "p2_methods", "call_paths", "call_resolutions_p3", "call_resolutions_p2"),
+    "transfers": ("stmt_transfers_p3", "stmt_transfers_p2", "handler_runs", "calls_core", "calls_basics", "calls_structs"),
+    "values": ("space_adds", "states_created", "p3_space_len", "strict_eval_calls", "strict_eval_bytes",
+               "strict_eval_max_bytes", "strict_eval_max_result_bits"),
+    "sfg": ("sfg_nodes", "sfg_edges", "sfg_add_edge_calls"),
+    "taint": ("taint_pops", "taint_propagations", "taint_enqueue_calls", "calls_taint"),
+}
+GROUP_OF = {k: g for g, ks in GROUPS.items() for k in ks}
+GROUP_OF["run"] = "run"
 MAX_FOLD_BITS = 10 ** 6
+RESOURCE_CRASHES = ("RecursionError", "MemoryError", "OverflowError")
 GROWTH_RATIO = 1.8
 GROWTH_MIN_N = 8
 GROWTH_MIN_VALUE = 40       # ratios of tiny counts (1, 2, 4 ...) are not evidence of anything
@@ -71,6 +88,18 @@ def innermost_lian_function(tb_text):
             fn = line.rsplit(", in ", 1)[1].strip()
             last = f"{os.path.basename(path)[:-3] if path.endswith('.py') else os.path.basename(path)}.{fn}"
     return last or "?"
+
+
+def recursing_lian_function(tb):
+    """For a RecursionError: the lian function that occurs most often on the stack (the body of the recursion)."""
+    count = {}
+    for fs in traceback.extract_tb(tb):
+        if "/lian/" in fs.filename:
+            k = f"{os.path.basename(fs.filename)[:-3]}.{fs.name}"
+            count[k] = count.get(k, 0) + 1
+    if not count:
+        return "?"
+    return sorted(count.items(), key=lambda kv: (-kv[1], kv[0]))[0][0]
 
 
 def run_case(case):
@@ -115,7 +144,8 @@ def run_case(case):
     except BaseException as e:    # noqa
         tb = traceback.format_exc()
         outcome = "exception"
-        detail = {"type": type(e).__name__, "msg": str(e)[:300], "where": innermost_lian_function(tb),
+        where = recursing_lian_function(e.__traceback__) if isinstance(e, RecursionError) else innermost_lian_function(tb)
+        detail = {"type": type(e).__name__, "msg": str(e)[:300], "where": where,
                   "traceback": tb[-3000:]}
     wall = time.time() - t0
     wc.stop_timer()
@@ -159,7 +189,10 @@ def case_key(case):
 
 
 def sig(family, counter, kind, p2_only):
-    return f"{family}:{counter}:{kind}" + (":p2" if p2_only else "")
+    group = GROUP_OF.get(counter, counter)
+    if family in gen_adv.FAMILIES and gen_adv.FAMILIES[family].hostile and group == "values":
+        family = "constant_folding"       # the hostile-constant families exist to exercise exactly this mechanism
+    return f"{family}:{group}:{kind}" + (":p2" if p2_only else "")
 
 
 def growing_counter(series):
@@ -189,6 +222,7 @@ class Judge:
         self.applicable = {}   # counter -> runs in which it could have been non-zero
         self.max_ratio = {}    # family -> (ratio, counter, n)
         self.runs = 0
+        self.other_crashes = []   # exceptions that are not resource exhaustion: recorded, not judged (C03's business)
 
     def fail(self, family, counter, kind, p2, desc, case, extra=None):
         c = dict(case_key(case))
@@ -215,8 +249,6 @@ class Judge:
         if r.status == "ok":
             v = r.value
             cnt = v["counters"]
-            self.table.setdefault((fam, p2), {})[n] = cnt
-            self.walls.setdefault((fam, p2), {})[n] = v["wall"]
             chk.count("runs completed with counters", 1)
             for k in ("p3_frames", "stmt_transfers_p3", "stmt_transfers_p2", "handler_runs", "taint_pops",
                       "space_adds", "strict_eval_calls", "calls_core", "calls_lang", "calls_taint", "sfg_edges"):
@@ -228,18 +260,25 @@ class Judge:
             if v["outcome"] == "exception":
                 d = v["detail"]
                 chk.count("runs ended by an exception", 1)
-                sfam = fam
-                if (d["type"] == "ValueError" and "integer string conversion" in d["msg"]
-                        and cnt.get("strict_eval_max_result_bits", 0) > 14000):
-                    sfam = "constant_folding"      # a folded constant too large for int -> str
-                self.fail(sfam, "run", f"crash:{d['type']}@{d['where']}", p2,
-                          f"{fam}(n={n}, p2={p2}): pipeline died with {d['type']} in {d['where']}: {d['msg'][:120]}",
-                          case, {"traceback": d["traceback"][-1500:]})
+                sfam, kind = fam, f"crash:{d['type']}@{d['where']}"
+                intstr = d["type"] == "ValueError" and "integer string conversion" in d["msg"]
+                if intstr and cnt.get("strict_eval_max_result_bits", 0) > 14000:
+                    # a folded constant too large for int -> str (raised wherever the value is first printed)
+                    sfam, kind = "constant_folding", "crash:ValueError[int-to-str-limit]"
+                if d["type"] in RESOURCE_CRASHES or intstr:
+                    self.fail(sfam, "run", kind, p2,
+                              f"{fam}(n={n}, p2={p2}): pipeline died with {d['type']} in {d['where']}: {d['msg'][:120]}",
+                              case, {"traceback": d["traceback"][-1500:]})
+                else:
+                    self.other_crashes.append({"family": fam, "n": n, "p2": p2, "type": d["type"], "where": d["where"],
+                                               "msg": d["msg"][:160]})
             elif v["outcome"] == "exit":
                 chk.count("runs ended by SystemExit", 1)
-                self.fail(fam, "run", f"crash:SystemExit@{self.exit_reason(r)}", p2,
-                          f"{fam}(n={n}, p2={p2}): pipeline quit with SystemExit({v['detail']}): {self.exit_line(r)}",
-                          case, {"log_tail": r.log_text(600)})
+                self.other_crashes.append({"family": fam, "n": n, "p2": p2, "type": "SystemExit",
+                                           "where": self.exit_reason(r), "msg": self.exit_line(r)[:160]})
+            if v["outcome"] == "ok":
+                self.table.setdefault((fam, p2), {})[n] = cnt
+                self.walls.setdefault((fam, p2), {})[n] = v["wall"]
             # constants: what the evaluation actually did
             fold_failed = False
             for e in v["evals"]:
@@ -247,7 +286,7 @@ class Judge:
                 blew = e.get("raised") in ("MemoryError", "OverflowError") and e["predicted_bits"] > MAX_FOLD_BITS
                 if produced or blew:
                     fold_failed = True
-                    self.fail(f"constant_folding[{e['op']}]", "strict_eval_max_result_bits", "envelope", p2,
+                    self.fail(f"constant_folding[{e['op']}]", "result_bits", "envelope", p2,
                               f"{fam}(n={n}): unbounded constant folding: lian evaluated `{e['text']}` "
                               f"({e['predicted_bits']:.3g} bits predicted from the operands, limit {MAX_FOLD_BITS}): "
                               f"result {e.get('result_bits')} bits, raised={e.get('raised')}, {e.get('wall_s')} s",
@@ -257,7 +296,7 @@ class Judge:
             for k in DECIDING:
                 lim = envelope_limit(fam, k, n)
                 if lim is not None and cnt.get(k, 0) > lim:
-                    if k == "strict_eval_max_result_bits" and fold_failed:
+                    if k.startswith("strict_eval_") and fold_failed:
                         continue
                     self.fail(fam, k, "envelope", p2,
                               f"{fam}(n={n}, p2={p2}): {k} = {cnt.get(k, 0)} exceeds its polynomial envelope {lim}",
@@ -269,6 +308,15 @@ class Judge:
         if r.status in ("abort", "lost") and note and note.get("abort") == "envelope":
             chk.count("runs stopped by the in-child envelope", 1)
             chk.nontrivial_case((fam, n, p2))
+            for e in note.get("evals", []):
+                if e.get("evaluated") and e.get("result_bits", 0) > MAX_FOLD_BITS:
+                    self.fail(f"constant_folding[{e['op']}]", "result_bits", "envelope", p2,
+                              f"{fam}(n={n}): unbounded constant folding: lian evaluated `{e['text']}` "
+                              f"({e['predicted_bits']:.3g} bits predicted from the operands, limit {MAX_FOLD_BITS}): "
+                              f"result {e.get('result_bits')} bits, {e.get('wall_s')} s", case, {"fold": e})
+                    if note["counter"].startswith("strict_eval_"):
+                        return
+                    break
             self.fail(fam, note["counter"], "envelope", p2,
                       f"{fam}(n={n}, p2={p2}): {note['counter']} reached {note['value']} > envelope {note['limit']} after "
                       f"{last.get('t')} s and was still running (analysis stopped by the monitor)", case,
@@ -290,7 +338,7 @@ class Judge:
                                       f"child got only {used:.0f} s of CPU (machine overloaded)")
                 return
             if pend:
-                self.fail(f"constant_folding[{pend['op']}]", "strict_eval_max_result_bits", "watchdog", p2,
+                self.fail(f"constant_folding[{pend['op']}]", "result_bits", "watchdog", p2,
                           f"{fam}(n={n}): unbounded constant folding: still inside strict_eval(`{pend['text']}`), predicted "
                           f"result {pend['predicted_bits']:.3g} bits, when the {case['watchdog']:.0f} CPU-s watchdog fired",
                           case, {"fold": pend, "last_snapshot_t": last.get("t")})
@@ -372,16 +420,21 @@ class Judge:
         chk = self.chk
         by = {}
         for fam, counter, kind, p2, desc, case in self.fails:
-            by.setdefault((fam, counter, kind), set()).add(p2)
+            by.setdefault(sig(fam, counter, kind, False), set()).add(p2)
+        seen = set()
         for fam, counter, kind, p2, desc, case in self.fails:
-            modes = by[(fam, counter, kind)]
-            chk.fail(sig(fam, counter, kind, modes == {True}), desc, case)
+            base = sig(fam, counter, kind, False)
+            key = (base, case["family"], case["n"], case["p2"])
+            if key in seen:              # one report per (signature, run)
+                continue
+            seen.add(key)
+            chk.fail(base + (":p2" if by[base] == {True} else ""), desc, case)
 
 
 def compact_table(table, walls):
     keys = ("gir_stmts", "p3_frames", "stmt_transfers_p3", "stmt_transfers_p2", "handler_runs", "space_adds",
-            "p3_space_len", "sfg_edges", "call_paths", "taint_pops", "strict_eval_calls",
-            "strict_eval_max_predicted_bits", "calls_core", "calls_taint")
+            "p3_space_len", "sfg_edges", "call_paths", "taint_pops", "strict_eval_calls", "strict_eval_bytes",
+            "strict_eval_max_result_bits", "calls_core", "calls_taint")
     out = {}
     for (fam, p2), rows in sorted(table.items()):
         out[f"{fam}{'+p2' if p2 else ''}"] = {
@@ -497,21 +550,22 @@ def replay(chk, path):
         stored = json.load(f)
     case = stored["case"]
     fam, n, p2, variant = case["family"], case["n"], case["p2"], case.get("variant", 0)
+    if stored.get("tier") in ("quick", "thorough"):
+        chk.tier = stored["tier"]            # same watchdogs as in the run that produced the case
     judge = Judge(chk)
     judge.variant = variant
     ns = [n]
     w = case.get("witness") or {}
-    if w.get("sweep"):
+    if w.get("sweep"):                       # a growth finding is a property of the sweep, re-run all of it
         ns = list(w["sweep"])
     cases = [(fam, m, p2) for m in ns]
-    if stored.get("signature", "").endswith(":p2") is False and len(ns) == 1:
-        pass
     run_all(chk, judge, cases, variant)
     judge.growth()
     judge.report()
     chk.nontrivial_case("replay-a"); chk.nontrivial_case("replay-b")
     chk.sample({"replayed": case_key(case), "signature": stored.get("signature")})
     chk.extra["tables"] = compact_table(judge.table, judge.walls)
+    chk.extra["other_crashes_not_judged"] = judge.other_crashes[:20]
 
 
 def main():
@@ -544,6 +598,8 @@ def main():
     chk.extra["max_growth_ratio_at_n>=8"] = {f: {"ratio": v[0], "counter": v[1], "n": v[2], "p2": v[3]}
                                              for f, v in sorted(judge.max_ratio.items())}
     chk.extra["runs"] = judge.runs
+    chk.extra["other_crashes_not_judged"] = judge.other_crashes[:40]
+    chk.counters["runs ended by an exception that is not resource exhaustion (recorded, not judged)"] = len(judge.other_crashes)
     if os.environ.get("VERIF_C13_CALIBRATE"):
         dump_raw(judge, chk, os.environ["VERIF_C13_CALIBRATE"])
     for fam in ("chain_k2", "mutual_ring", "hostile_pow_tower"):
@@ -552,7 +608,8 @@ def main():
             chk.sample({"family": fam, "n": 3, "variant": variant, "files": p.files})
     chk.assumptions += [
         "termination on every program is restated as: bounded logical work on the generated families + growth-ratio test",
-        "envelopes are committed constants calibrated on the unchanged tree with >= 10x head-room",
+        "envelopes are committed constants (>= 10x head-room), calibrated on the tree with the proposed C13 repairs applied",
+        "exceptions other than resource exhaustion end a run without a C13 verdict (listed under other_crashes_not_judged)",
         "wall-clock time never decides; a watchdog without counter evidence is inconclusive",
         "the maxima over 'all programs of the other generators' are not included (those generators belong to other checks)",
     ]
